@@ -213,6 +213,7 @@ inductive CallCase (w : World) (o f : Nat) (a : Args) (m : Mock) : Prop
   | blocked (e : Nat) (x : Exp) (r : Report)
       (hfind : (find (w.expMatches a) w.expOrder (m.active f)).1 = some e)
       (hx : w.exps e = some x) (hhi : x.hi ≠ 0) (hord : w.order (.exp e) x.seqs = none)
+      (hr : r = (w.validateAll (.exp e) x.seqs).head?.getD (.seqNoMore 0 (.exp e)))
       (heq : w.callFn o f a =
         (w,
          (find (w.expMatches a) w.expOrder (m.active f)).2.flatMap (w.matchLog a) ++
@@ -251,7 +252,7 @@ theorem callFn_cases (w : World) (o f : Nat) (a : Args) (m : Mock) (hm : w.mocks
       rw [hbase]; simp [runActions, hhi]
     · cases hord : w.order (.exp e) x.seqs with
       | none =>
-        refine CallCase.blocked e x ((w.validateAll (.exp e) x.seqs).head?.getD (.seqNoMore 0 (.exp e))) hfind hx hhi hord ?_
+        refine CallCase.blocked e x ((w.validateAll (.exp e) x.seqs).head?.getD (.seqNoMore 0 (.exp e))) hfind hx hhi hord rfl ?_
         rw [hbase]; simp only [runActions, hhi, if_false, hord]
       | some n =>
         refine CallCase.accepted e x n hfind hx hhi hord ?_
